@@ -45,6 +45,7 @@ class Explorer:
         self.trail: list[bool] = []
         self.model = None
         self.dom: dict[int, frozenset] = {}
+        self.selectors: set = set()
         self.vars: dict[str, tuple] = {}
         self.steps = 0
         self.step_budget = 10**9
@@ -67,6 +68,7 @@ class Explorer:
         self.model = None
         self.dom = {}
         self.vars = {}
+        self.selectors = set()
         self.steps = 0
 
     def end(self) -> None:
@@ -87,11 +89,14 @@ class Explorer:
             raise Budget()
 
     # ---- variables -----------------------------------------------------
-    def fd(self, name: str, size: int, allowed=None):
-        """finite-domain Int variable with values 0..size-1 (optionally restricted)"""
+    def fd(self, name: str, size: int, allowed=None, selector=False):
+        """finite-domain Int variable with values 0..size-1 (optionally restricted).  selector=True: the variable only picks
+        a case from a list (it never meets another variable in a constraint), so its splits need no feasibility query"""
         if name in self.vars:
             return self.vars[name][0]
         v = z3.Int(name)
+        if selector:
+            self.selectors.add(v.get_id())
         if allowed is None:
             self.solver.add(v >= 0, v < size)
             d = frozenset(range(size))
@@ -128,7 +133,7 @@ class Explorer:
         return e
 
     # ---- decisions -------------------------------------------------------
-    def _decide(self, cond) -> bool:
+    def _decide(self, cond, other_known_feasible=False) -> bool:
         i = len(self.trail)
         self.ndecisions += 1
         if i < len(self.prefix):
@@ -137,11 +142,15 @@ class Explorer:
         else:
             m = self.get_model()
             d = z3.is_true(m.eval(cond, model_completion=True))
-            r = self.check(z3.Not(cond) if d else cond)
-            if r == z3.sat:
+            if other_known_feasible:
+                # selector variables (see `fd(..., selector=True)`) occur in unary constraints only: the domain cache is exact
                 self.work.append(self.trail + [not d])
-            elif r == z3.unknown:
-                raise EngineError("solver returned unknown on a branch decision")
+            else:
+                r = self.check(z3.Not(cond) if d else cond)
+                if r == z3.sat:
+                    self.work.append(self.trail + [not d])
+                elif r == z3.unknown:
+                    raise EngineError("solver returned unknown on a branch decision")
         self.trail.append(d)
         self.solver.add(cond if d else z3.Not(cond))
         return d
@@ -166,7 +175,7 @@ class Explorer:
             return False
         if len(inter) == len(D):
             return True
-        d = self._decide(self.IN(var, ks))
+        d = self._decide(self.IN(var, ks), other_known_feasible=vid in self.selectors)
         self.dom[vid] = inter if d else (D - ks)
         return d
 
@@ -187,7 +196,13 @@ class Explorer:
             if not D:
                 raise EngineError("empty domain")
             s = sorted(D)
-            self.branch_in(var, frozenset(s[: len(s) // 2]))
+            half = s[: len(s) // 2]
+            if s[-1] - s[0] + 1 == len(s):
+                # contiguous domain: split by a threshold (one comparison instead of a disjunction of equalities)
+                d = self._decide(var <= half[-1], other_known_feasible=vid in self.selectors)
+                self.dom[vid] = frozenset(half) if d else frozenset(s[len(half):])
+            else:
+                self.branch_in(var, frozenset(half))
 
     def int_value(self, expr, lo: int, hi: int) -> int:
         """concretise an integer term by forking over [lo, hi]"""
